@@ -686,7 +686,7 @@ impl Scenario for Corrupt {
         if tier == "thorough" {
             Self::sweeps("thorough") + 20_000_000
         } else {
-            Self::sweeps("quick") + 300_000
+            Self::sweeps("quick") + 1_000_000
         }
     }
 
@@ -694,7 +694,7 @@ impl Scenario for Corrupt {
         let mut r = Rng::for_run(seed, self.tag(), run);
         // The first runs of a batch are sweeps. Which runs those are depends only on the
         // run index, never on the tier, so a run index means the same case in both tiers.
-        if run < Self::sweeps("quick") || (run >= 300_200 && run < 300_200 + Self::sweeps("thorough") - Self::sweeps("quick")) {
+        if run < Self::sweeps("quick") || (run >= 1_000_200 && run < 1_000_200 + Self::sweeps("thorough") - Self::sweeps("quick")) {
             let mut cfg = doc_cfg(&mut r);
             cfg.long = r.chance(1, 10);
             cfg.max_width = cfg.max_width.min(4);
